@@ -120,7 +120,30 @@ Fixpoint xrun (s : vec * vec) (ops : list xop) : list (res (list Z * list Z)) :=
       | OutOfFuel => [OutOfFuel]
       end
   end.
+
+(* the state a history ends in (None as soon as a step does not return normally) *)
+Fixpoint xexec (s : vec * vec) (ops : list xop) : option (vec * vec) :=
+  match ops with
+  | [] => Some s
+  | o :: rest => match xstep s o with Ok (s', _) => xexec s' rest | _ => None end
+  end.
 End XStep.
+
+(* the operations that name exactly one object, u, and no other *)
+Definition touches_only (u : bool) (o : xop) : bool :=
+  match o with
+  | Base o =>
+      match o with
+      | PushBack t _ | EmplaceBack t _ | PopBack t | InsertCR t _ _ | InsertRV t _ _ | InsertN t _ _ _
+      | InsertRange t _ _ | EmplaceAt t _ _ | EraseAt t _ | EraseRange t _ _ | Clear t | Resize t _
+      | ResizeVal t _ _ | AssignN t _ _ | AssignRange t _ | CopyConstruct t | MoveRoundTrip t | EraseIf t _
+      | EraseVal t _ | At t _ | Front t | Back t | SelfCopyAssign t | SelfSwap t => Bool.eqb t u
+      | Swap | CopyAssign _ | MoveAssign _ | Relations => false
+      end
+  | RIter t _ | CIter t | SetAt t _ _ | SetFront t _ | SetBack t _ | DataRead t | MaxSize t | SelfMoveAssign t
+  | MoveInsertRange t _ _ | CtorN t _ | CtorNVal t _ _ | CtorRange t _ | CopyIndep t _ _ => Bool.eqb t u
+  | SwapFree => false
+  end.
 
 (** * stack<T, static_vector<T, N>>: every member forwards to the container c *)
 Inductive st_op :=
